@@ -17,8 +17,10 @@
 package main
 
 import (
+	"encoding/json"
 	"flag"
 	"fmt"
+	"hash/fnv"
 	"math/rand"
 	"os"
 	"strings"
@@ -233,7 +235,11 @@ func (rc *recorder) onAcquire(t *verifsched.Thread, m *verifsched.Mutex) {
 	var a *act
 	if inst == 0 {
 		switch {
-		case top != nil && top.kind == "submit" && top.act == nil:
+		case top != nil && top.kind == "submit":
+			if top.act != nil {
+				// a submission with more than one critical section: the last one counts as the submission (for the oracle)
+				top.act.kind, top.act.what = 'x', fmt.Sprintf("the submission of job %d took more than one critical section of c.mux", top.j)
+			}
 			a = rc.emit(&act{inst: 0, kind: 's', j: top.j, must: top.must})
 			top.act = a
 		case top != nil && top.kind == "close" && top.act == nil:
@@ -254,13 +260,21 @@ func (rc *recorder) onAcquire(t *verifsched.Thread, m *verifsched.Mutex) {
 		}
 	} else {
 		switch {
-		case top != nil && top.kind == "asubmit" && top.act == nil:
+		case top != nil && top.kind == "asubmit":
+			if top.act != nil {
+				top.act.kind, top.act.what = 'x', fmt.Sprintf("Async of function %d took more than one critical section of asyncMux", top.j)
+			}
 			a = rc.emit(&act{inst: 1, kind: 's', j: top.j, must: true})
 			top.act = a
 			rc.submitted[1][top.j] = true
 		case top != nil && top.kind == "close":
 			// Close -> engine.onClose -> Timer.Async(close notification)
-			a = rc.emit(&act{inst: 1, kind: 's', j: closeFnID + len(rc.submitted[1]), must: true})
+			id := closeFnID + len(rc.submitted[1])
+			if top.aact != nil {
+				id = top.aact.j
+				top.aact.kind, top.aact.what = 'x', "Async of the close notification took more than one critical section of asyncMux"
+			}
+			a = rc.emit(&act{inst: 1, kind: 's', j: id, must: true})
 			rc.submitted[1][a.j] = true
 			top.j = a.j
 			top.aact = a
@@ -890,12 +904,44 @@ func (rn *runner) one(cs caseSpec, label string, pick func(step int, en []int) i
 	return res
 }
 
+// schedKey: hash of the sequence of threads that ran (identifies the interleaving)
 func schedKey(res *result) string {
-	var b strings.Builder
+	h := fnv.New64a()
+	var b [2]byte
 	for _, c := range res.choices {
-		fmt.Fprintf(&b, "%d.", c.Thread)
+		b[0], b[1] = byte(c.Thread), byte(c.Thread>>8)
+		h.Write(b[:])
 	}
-	return b.String()
+	return fmt.Sprintf("%016x", h.Sum64())
+}
+
+// replayFile re-runs the case and schedule stored in a finding (evidence/replay/*.json or a report's finding)
+func replayFile(rn *runner, path string) {
+	raw, err := os.ReadFile(path)
+	if err != nil {
+		hx.Fatal("replay: %v", err)
+	}
+	var f struct {
+		Replay struct {
+			Case     caseSpec `json:"case"`
+			Schedule []int    `json:"schedule"`
+		} `json:"replay"`
+	}
+	if err := json.Unmarshal(raw, &f); err != nil {
+		hx.Fatal("replay: %v", err)
+	}
+	sch := f.Replay.Schedule
+	res := rn.one(f.Replay.Case, "replay", func(step int, en []int) int {
+		if step < len(sch) {
+			return sch[step]
+		}
+		return 0
+	}, map[string]interface{}{"part": "replay", "file": path})
+	rn.rep.Case("replay/"+schedKey(res), true)
+	fmt.Printf("replay: %d actions, starts %v, async starts %v, terminated %v\n", len(res.rc.acts), res.rc.starts[0], res.rc.starts[1], res.ok)
+	for _, x := range rn.rep.Findings {
+		fmt.Printf("  %s %s %s: %s\n", x.Kind, x.Property, x.Signature, x.What)
+	}
 }
 
 func main() {
@@ -906,6 +952,7 @@ func main() {
 	focus := flag.String("focus", "conn", "conn | async: which queue the workloads stress")
 	model := flag.String("model", "", "")
 	out := flag.String("out", "-", "")
+	replay := flag.String("replay", "", "re-run the case and schedule of a stored finding (json) instead of generating cases")
 	flag.Parse()
 	logging.SetLevel(logging.LevelNone)
 	logging.Output = devNull{}
@@ -915,6 +962,11 @@ func main() {
 	if *model != "" {
 		rn.m = hx.StartModel(*model)
 		defer rn.m.Close()
+	}
+	if *replay != "" {
+		replayFile(rn, *replay)
+		rep.Write(*out)
+		return
 	}
 	// part 1: seeded workloads and schedules
 	for i := 0; i < *n && !rep.TooMany(); i++ {
